@@ -948,6 +948,7 @@ MUST = [
     "dropdup_b/filt_a/id", "dropdup_b/proj_ab/id", "dropdup_b/col0",
     "filt_a/len", "assign_z/len", "proj_ab/len", "dropna/len", "sort_b/len", "shuffle_b/len", "add1/filt_a/len", "head3/len", "repart5/len",
     "filt_a/index", "assign_z/index", "sort_b/index", "set_index_a/index",
+    "gb_slice_sel", "filt_a/gb_slice_sel", "add1/gb_slice_sel",
     "filt_a/vc_last", "assign_z/gb_sum", "filt_or/gb_count", "proj_ab/gb_agg", "rename_aA/gb_sum", "astype_f/gb_sum", "sort_b/gb_sum",
     "filt_a/nunique0", "assign_a/nunique0", "proj_ba/col0_sum", "suffix/max", "prefix/count",
     "reset_index/filt_a/id", "reset_index/proj_ab/sum", "set_index_a/sum", "set_index_a/filt_a/id", "sort_b/filt_a/id", "sort_a_desc/proj_ab/id",
